@@ -463,6 +463,13 @@ pub fn gen(rng: &mut Rng, p: &Params) -> Vec<String> {
                     ord3(&s1, &s2)
                 ));
             }
+            12 if r.chance(50) => {
+                // gas allowance arithmetic (C16): around the saturation point of n * 12000
+                let sat = u64::MAX / 12000;
+                for n in [0u64, 1, 2, a_u64(r), sat - 1, sat, sat + 1, u64::MAX, r.next()] {
+                    lines.push(format!("gas {}", n));
+                }
+            }
             12 => {
                 // pending-pool keys (address, nonce): same address, nonces compare numerically
                 let a = a_addr(r);
@@ -633,6 +640,16 @@ pub fn exec(lines: &[String], out: &mut Out) {
                     out.oracle_fail(&case, "order", &format!("encoded keys {} vs {} compare {}, the values compare {}", a, b, got, want));
                 }
                 out.line(&format!("ord {} {}", a, b), got);
+            }
+            ["gas", n] => {
+                let n: u64 = n.parse().unwrap_or(0);
+                let gl = get_gas_limit(n);
+                let bl = get_inscription_byte_len(n);
+                // oracle: 12000 per byte, saturating; the inverse is a floor division
+                if gl != n.saturating_mul(12000) || bl != n / 12000 || (gl as u128) > (n as u128) * 12000 {
+                    out.oracle_fail(&case, "gas-arith", &format!("get_gas_limit({}) = {}, get_inscription_byte_len({}) = {}", n, gl, n, bl));
+                }
+                out.line(line, &format!("{} {}", gl, bl));
             }
             ["json", name, ..] => {
                 let js = line.splitn(3, ' ').nth(2).unwrap_or("");
